@@ -20,7 +20,7 @@ ASSUMPTIONS = [
     'one target channel per fire; priorities of harness events all 0',
     'expected set of an event nobody handled is accepted if it was empty at some model version while the event was pending',
 ]
-REQUIRED = ['method_declared_not_a_handler_in_a_Component_subclass', 'warm_dispatch_after_add', 'warm_dispatch_after_rm', 'warm_dispatch_after_reg', 'warm_dispatch_after_unreg',
+REQUIRED = ['component_unregistered_for_the_second_time', 'method_declared_not_a_handler_in_a_Component_subclass', 'warm_dispatch_after_add', 'warm_dispatch_after_rm', 'warm_dispatch_after_reg', 'warm_dispatch_after_unreg',
             'detached_subtree_dispatch', 'instance_channel_dispatch', 'global_handler_dispatch', 'inherited_handler_dispatch',
             'implicit_method_dispatch', 'ops_inside_handlers', 'pre_registration_event', 'fire_overlapping_unregister',
             'same_event_object_fired_on_two_channels', 'channels_preset_on_event', 'component_with_several_handler_declaring_bases']
@@ -50,6 +50,7 @@ class World:
         self.uid = 0
         self.script_runs = {}
         self.skipped = 0
+        self.times_left = {}
         self.done_ops = []
         self.hobj = {}          # (cid, hid) -> bound method (for removeHandler)
         self.next_dyn = 0
@@ -337,7 +338,9 @@ class World:
                 del self.decl[x][hid]
         elif kind == 'reg':
             _, c, p = op
-            if self.parent[c] is not None or p in self.subtree(c) or c == p or getattr(self.comps[c], 'unregister_pending', False):
+            # (whether an unregistration is still under way is the model's knowledge - every 'unreg' is settled before the next op -, never
+            # the component's own flag: a flag that is not cleared must not keep the history from being run)
+            if self.parent[c] is not None or p in self.subtree(c) or c == p:
                 self.skipped += 1
                 return
             if inside and len(self.comps[c]._queue._priority_queue):
@@ -368,7 +371,11 @@ class World:
             self.mutate('unreg')
             self.parent[c] = None
             if self.comps[c].parent is not self.comps[c]:
-                raise RuntimeError('unregister did not complete after settling')
+                # the model goes on with c detached (everything has settled): what is delivered from now on is judged against that
+                self.marks.add('component_still_attached_after_its_unregistration_settled')
+            if self.times_left.get(c):
+                self.marks.add('component_unregistered_for_the_second_time')
+            self.times_left[c] = self.times_left.get(c, 0) + 1
             self.marks_detached = getattr(self, 'marks_detached', set())
             self.marks_detached.add(c)
         else:
@@ -460,6 +467,12 @@ def corpus():
         ['rm', 1, 50], [F, 0, 'ping', '*'], S, ['rm', 0, 1], [F, 0, 'ping', '*'], S,
         ['add', 0, {'hid': 51, 'names': ['ping', 'pong'], 'channel': 'a'}], [F, 0, 'ping', 'a'], [F, 0, 'pong', 'a'], S,
         ['rm1', 0, 51, 'ping'], [F, 0, 'ping', 'a'], [F, 0, 'pong', 'a'], S]})
+    # 1b. the same component instance joins and leaves twice (with a child of its own, next to a permanent sibling); fired after every step
+    cases.append({'name': 'join-leave-join-leave', 'comps': [comp(0, None, [H(1, ['ping'])]), comp(1, None, [H(2, ['ping'])]), comp(2, None, [H(3, ['ping'])]),
+                                                            comp(3, None, [H(4, ['ping'])])], 'ops': [
+        ['reg', 1, 0], ['reg', 2, 1], ['reg', 3, 0], [F, 0, 'ping', None], S, ['unreg', 1], [F, 0, 'ping', None], [F, 1, 'ping', None], S,
+        ['reg', 1, 0], [F, 0, 'ping', None], S, ['unreg', 1], [F, 0, 'ping', None], S, [F, 1, 'ping', None], S, [F, 0, 'ping', '*'], S,
+        ['reg', 1, 3], [F, 0, 'ping', None], S, ['unreg', 1, [[F, 0, 'ping', None]]], [F, 0, 'ping', None], S, [F, 2, 'ping', None], S]})
     # 2. register / unregister between warm dispatches
     cases.append({'name': 'warm-reg-unreg', 'comps': [comp(0, None, [H(1, ['ping'])]), comp(1, None, [H(2, ['ping'])]),
                                                      comp(2, 'b', [H(3, ['ping'])])], 'ops': [
